@@ -25,18 +25,18 @@ type named struct{ pkg, name string }
 
 // what one workspace declares
 type wsInfo struct {
-	pkg      string
-	ws       *Ws
-	anc      []*wsInfo // direct ancestors
-	tables   []*tabInfo
-	types    []named
-	views    []viewInfo
-	cmds     []named
-	queries  []named
-	projs    []named
-	roles    []named
-	rates    []named
-	ownCols  map[string][]string // table name -> own field/ref names
+	pkg     string
+	ws      *Ws
+	anc     []*wsInfo // direct ancestors
+	tables  []*tabInfo
+	types   []named
+	views   []viewInfo
+	cmds    []named
+	queries []named
+	projs   []named
+	roles   []named
+	rates   []named
+	ownCols map[string][]string // table name -> own field/ref names
 }
 
 type gen struct {
@@ -114,8 +114,11 @@ func fieldName(i int) string { return fmt.Sprintf("f%d", i) }
 
 // fresh member name not in `used`
 func (g *gen) member(used map[string]bool) string {
-	for {
+	for try := 0; ; try++ {
 		n := fieldName(g.r.Intn(40))
+		if try > 60 { // the small colliding alphabet is used up (long chains): widen it
+			n = fieldName(40 + len(used) + try)
+		}
 		if !used[n] {
 			used[n] = true
 			return n
@@ -232,7 +235,7 @@ func (g *gen) nestedTable(w *wsInfo, pkg, rootKind string, depth int) (*Table, [
 	// INHERITS: the system record table, or (rarely) an abstract record table of the same kind
 	if g.r.Chance(1, 4) {
 		t.Inh = &QRef{Pkg: "sys", Name: nk}
-	} else if g.r.Chance(1, 6) {
+	} else if g.r.Chance(1, 4) {
 		for _, v := range visible(w) {
 			for _, p := range v.tables {
 				if p.abstract && p.root && p.kind == nk && (p.pkg == pkg || !p.hasNested) && t.Inh == nil {
@@ -482,7 +485,7 @@ func (g *gen) projDecl(w *wsInfo) {
 			n := g.member(used)
 			if len(tabs) > 0 && g.r.Chance(1, 5) {
 				it := VItem{Name: n, NotNull: !key && g.r.Bool(), Refs: []QRef{}}
-				if g.r.Bool() {
+				if g.r.Chance(1, 2) {
 					t := kit.Pick(g.r, tabs)
 					it.Refs = []QRef{g.ref(pkg, named{t.pkg, t.name})}
 				}
